@@ -79,11 +79,20 @@ func main() {
 		default:
 			wsizes = []int{0, 1, C - 1, C, C + 1, 2 * C, 2*C + 1, 3 * C}
 		}
+		type producer struct {
+			name string
+			wrap func(io.Reader) io.Reader
+		}
+		producers := []producer{
+			{"plain", func(r io.Reader) io.Reader { return struct{ io.Reader }{r} }},
+			{"data+EOF", iotest.DataErrReader}, {"half", iotest.HalfReader}, {"onebyte", iotest.OneByteReader},
+			{"bufio", func(r io.Reader) io.Reader { return bufio.NewReaderSize(r, 4096) }},
+		}
 		c.Part("write-schedules")
 		if C <= 4 {
 			c.Bound("ChunkSize=%d: every composition of every plaintext length 0..%d into writes, with up to %d extra empty writes at any place; binary and armored", C, wsizes[len(wsizes)-1], bound)
 		} else {
-			c.Bound("ChunkSize=%d: plaintext lengths %s; at every Write the size is chosen from {rest, 0, 1, to the next chunk seam, seam-1, seam+1, one chunk + 1}; every schedule with <= %d deviations from a single Write; binary and armored", C, lens(wsizes), bound)
+			c.Bound("ChunkSize=%d: plaintext lengths %s; at every Write the size is chosen from {rest, 0, 1, to the next chunk seam, seam-1, seam+1, one chunk + 1}; every schedule with <= %d deviations from a single Write; the caller overwrites its buffer after every Write; plus io.Copy / io.CopyBuffer (buffers C, 2C+1) from plain, data+EOF, half, one-byte and bufio sources; binary and armored", C, lens(wsizes), bound)
 		}
 		for _, n := range wsizes {
 			for _, armored := range []bool{false, true} {
@@ -142,6 +151,7 @@ func main() {
 					pos := 0
 					zeros := 0
 					var sched []int
+					var scratch []byte
 					for pos < n || true {
 						rest := n - pos
 						var menu []int
@@ -183,7 +193,13 @@ func main() {
 							}
 						}
 						sched = append(sched, k)
-						wn, err := w.Write(plain[pos : pos+k])
+						// the caller owns its buffer again as soon as Write returns: it is handed over in a scratch slice
+						// that is overwritten afterwards
+						scratch = append(scratch[:0], plain[pos:pos+k]...)
+						wn, err := w.Write(scratch)
+						for i := range scratch {
+							scratch[i] = 0xA5
+						}
 						if err != nil {
 							fail("write-error", fmt.Sprintf("Write of %d bytes failed: %v", k, err))
 							return
@@ -237,6 +253,51 @@ func main() {
 				c.Depth(ex.Stats.MaxDepth)
 				if ex.Stats.Capped {
 					c.NotExhaustive("deadline during write schedules")
+				}
+				// the plaintext handed over with io.Copy / io.CopyBuffer (which use the writer's ReadFrom if it has one)
+				// from sources with legal but unusual delivery
+				for pi, prod := range producers {
+					for _, cb := range []int{0, C, 2*C + 1} {
+						tape.Install(tape.New(seed))
+						var buf bytes.Buffer
+						var dst io.Writer = &buf
+						var aw io.WriteCloser
+						if armored {
+							aw = armor.NewWriter(&buf)
+							dst = aw
+						}
+						id := fmt.Sprintf("%s/iocopy.%s.buf%d", id0, prod.name, cb)
+						var cerr error
+						w, err := age.Encrypt(dst, x0.Rcpt)
+						if err == nil {
+							src := prod.wrap(bytes.NewReader(plain))
+							var copied int64
+							if cb == 0 {
+								copied, cerr = io.Copy(w, src)
+							} else {
+								copied, cerr = io.CopyBuffer(w, src, make([]byte, cb))
+							}
+							if cerr == nil && copied != int64(n) {
+								cerr = fmt.Errorf("io.Copy reports %d of %d bytes", copied, n)
+							}
+							if cerr == nil {
+								cerr = w.Close()
+							}
+							if cerr == nil && aw != nil {
+								cerr = aw.Close()
+							}
+						} else {
+							cerr = err
+						}
+						tape.Restore()
+						c.Eval(1)
+						_ = pi
+						if cerr != nil {
+							c.Fail("write-error", id, "io.Copy into the encrypting writer failed: "+cerr.Error(), nil)
+						} else if !bytes.Equal(buf.Bytes(), base) {
+							c.Fail("output-depends-on-write-segmentation/io.Copy", id, fmt.Sprintf("output (%d bytes) of io.Copy from a %s source differs from the single-Write output (%d bytes) under the same random tape", buf.Len(), prod.name, len(base)), map[string]interface{}{"plaintext_len": n, "armor": armored, "source": prod.name, "copy_buffer": cb})
+						}
+					}
 				}
 			}
 		}
@@ -498,6 +559,55 @@ func main() {
 					c.NotExhaustive("deadline during read schedules")
 				}
 			}
+		}
+
+		// =============================================================== de-armoring alone, by read size
+		c.Part("dearmor-read-sizes")
+		dsizes := []int{1, 2, 7, 39, 47, 48, 49, 64, 100, 4096}
+		c.Bound("armor.NewReader read directly (no decryption on top) over every armored file above, valid and damaged, with read buffers of %v bytes, io.ReadFull records of 17 bytes and io.ReadAll: the same bytes and the same error whatever the read size", dsizes)
+		if c.Shard == 0 {
+			for _, f := range files {
+				if !f.armored {
+					continue
+				}
+				want, werr := io.ReadAll(armor.NewReader(bytes.NewReader(f.data)))
+				for _, bs := range append([]int{-17}, dsizes...) {
+					c.Eval(1)
+					id := fmt.Sprintf("dearmor/%s/buf%d", f.name, bs)
+					c.DistinctOnce(ev.HashStr(id))
+					r := armor.NewReader(bytes.NewReader(f.data))
+					var got []byte
+					var gerr error
+					buf := make([]byte, 17)
+					if bs > 0 {
+						buf = make([]byte, bs)
+					}
+					for i := 0; i < 1<<22; i++ {
+						var n int
+						var err error
+						if bs < 0 {
+							n, err = io.ReadFull(r, buf)
+							if err == io.ErrUnexpectedEOF {
+								err = io.EOF
+							}
+						} else {
+							n, err = r.Read(buf)
+						}
+						got = append(got, buf[:n]...)
+						if err == io.EOF {
+							break
+						}
+						if err != nil {
+							gerr = err
+							break
+						}
+					}
+					if !bytes.Equal(got, want) || lab.ErrText(gerr) != lab.ErrText(werr) {
+						c.Fail("result-depends-on-read-size/dearmor", id, fmt.Sprintf("reading the armor with %d-byte reads releases %d bytes and %q; io.ReadAll releases %d bytes and %q", bs, len(got), lab.ErrText(gerr), len(want), lab.ErrText(werr)), map[string]interface{}{"file": f.name, "read_size": bs})
+					}
+				}
+			}
+			c.Sample(map[string]interface{}{"file": "armor-trailing-garbage.n1", "read_sizes": dsizes})
 		}
 	})
 }
